@@ -114,34 +114,64 @@ R.contract("Socket.accept", trusted=True, params={"self": "Socket"}, returns="Tu
            note="T-sock (ASSUMED): accept() on a listening socket that select() reported readable returns a new connected "
                 "socket and the peer address and does not fail (an accept failure is not among C14's fault kinds; in the "
                 "real code it would propagate out of the I/O loop)")
+R.model("Socket", fields={"g_rx": "bytes"})
+R.model("PeerConnection", fields={"g_in": "bytes"})
 R.contract("Socket.recv", trusted=True, params={"self": "Socket", "n": "int"}, returns="bytes",
-           raises=[Raise("OSError", "True", "may")], ensures=["len(result) <= n"])
+           raises=[Raise("OSError", "True", "may")],
+           ensures=["len(result) <= n", "self.g_rx == old(self.g_rx) + result"],
+           ensures_exc={"OSError": ["self.g_rx == old(self.g_rx)"]},
+           ghost_modifies=["self.g_rx"],
+           note="T-sock: ghost log g_rx = all bytes this socket has delivered to the program so far (a failing recv delivers none)")
 R.contract("PeerConnection.add_in_bytes", trusted=True, params={"self": "PeerConnection", "data": "bytes"},
-           note="hands the bytes to the connection's read queue (queue.Queue.put on an unbounded queue: does not raise)")
+           ensures=["self.g_in == old(self.g_in) + data"], ghost_modifies=["self.g_in"],
+           note="hands the bytes to the connection's read queue (queue.Queue.put on an unbounded queue: does not raise); "
+                "ghost log g_in = all bytes handed to this connection's reader so far, in order")
 _rslice = R.contract("Node._handle_connections@for:rsock", params={"self": "Node", "rsock": "Socket"},
                      requires=[("generators-in-range", "seq_ok(self.end_to_end_seq)"),
                                ("identity-encodable", "encodable(self.origin_host) and encodable(self.realm_name)")],
+                     ghost={"oc": "PeerConnection"},
+                     ensures=[("every-byte-received-on-a-connections-socket-is-handed-to-that-connection-in-order",
+                               "implies(old(rsock.fd in self.socket_peers and not (rsock in self.tcp_sockets) and "
+                               "not (rsock in self.sctp_sockets)), "
+                               "old(self.socket_peers[rsock.fd]).g_in == old(self.socket_peers[rsock.fd].g_in) + "
+                               "rsock.g_rx[old(len(rsock.g_rx)):])"),
+                              ("no-other-connection-is-handed-any-bytes",
+                               "implies(not old(rsock.fd in self.socket_peers and self.socket_peers[rsock.fd] == oc), "
+                               "oc.g_in == old(oc.g_in))"),
+                              ("nothing-is-read-from-a-socket-without-a-connection",
+                               "implies(not old(rsock.fd in self.socket_peers) and not old(rsock in self.tcp_sockets) and "
+                               "not old(rsock in self.sctp_sockets), rsock.g_rx == old(rsock.g_rx))")],
                      raises=[Raise("RuntimeError", "True", "may")],
                      modifies=["*PeerConnection.state", "*StoppableThread.stopped", "*Socket.closed", "*Peer.connection",
                                "*Peer.last_connect", "*Peer.last_disconnect", "*Peer.disconnect_reason",
                                "dict:self.connections", "dict:self.peer_sockets", "dict:self.socket_peers",
                                "dict:self._half_ready_connections", "dict:self._peer_waiting_answer", "*Event.flag",
                                "*list:Peer"],
-                     ghost_modifies=["*PeerConnection.g_close_calls", "*PeerConnection.g_close_reason", "*PeerConnection.g_attn"],
-                     props=["C14"],
+                     ghost_modifies=["*PeerConnection.g_close_calls", "*PeerConnection.g_close_reason", "*PeerConnection.g_attn",
+                                     "*PeerConnection.g_in", "*Socket.g_rx", "self.g_pipe_rx"],
+                     props=["C14", "C05", "C07", "C15"],
                      note="one iteration of `for rsock in ready_r` for a socket object (listening or connection socket); the "
                           "the interrupt-pipe case is covered only as far as the model lets a socket object equal the pipe's descriptor; "
                           "RuntimeError can only come from _generate_connection_id giving up after 11 colliding random ids")
+from . import helpers  # noqa  (bytes_hex)
 from pyvc import models as _m2
 from pyvc.values import VBytes as _VBytes
 
 
+R.model("Node", fields={"g_pipe_rx": "bytes"})
+
+
 def _os_read(ex, st, args, kwargs, k, where):
     """T-os (ASSUMED): os.read(fd, n) on the node's own interrupt pipe, after select() reported it readable, returns at
-    most n bytes and does not fail"""
-    from pyvc.smt import Le, seq_len
+    least one and at most n bytes and does not fail; ghost log Node.g_pipe_rx = all bytes taken out of the pipe so far
+    (what is read is consumed, whether or not the caller looks at it)"""
+    from pyvc.smt import Le, Lt, I, seq_len, seq_concat
+    from pyvc.values import VRef
     t = ex.arbitrary("(Seq Int)", "os_read")
-    s2 = st.assume(Le(seq_len(t), ex.num(ex.unwrap(args[1]))))
+    s2 = st.assume(Le(seq_len(t), ex.num(ex.unwrap(args[1])))).assume(Lt(I(0), seq_len(t)))
+    me = st.locals.get("self")
+    if isinstance(me, VRef) and ex.field_decl(me.cls, "g_pipe_rx") is not None:
+        s2 = ex.write_field(s2, me, "g_pipe_rx", _VBytes(seq_concat(ex.read_field(s2, me, "g_pipe_rx").t, t)))
     return k(s2, _VBytes(t))
 
 
@@ -162,9 +192,12 @@ if "PeerConnection.__new__" not in R.contracts:
 
 # the interrupt-pipe case of the receive branch: rsock is the int self.interrupt_read
 R.contract("Node._handle_connections@for:rsock#interrupt", params={"self": "Node", "rsock": "int"},
-           ghost_out={"c": ("conn", "Opt[PeerConnection]")},
+           ghost_out={"c": ("conn", "Opt[PeerConnection]"), "cid": ("conn_id", "str")},
            requires=[("is-the-interrupt-pipe", "rsock == self.interrupt_read")],
-           ensures=[("a-closed-connection-that-asked-for-attention-is-released",
+           ensures=[("one-wake-up-takes-exactly-one-6-byte-connection-id-out-of-the-pipe-and-serves-that-connection",
+                     "len(self.g_pipe_rx) <= old(len(self.g_pipe_rx)) + 6 and "
+                     "cid == hex_of(self.g_pipe_rx[old(len(self.g_pipe_rx)):])"),
+                    ("a-closed-connection-that-asked-for-attention-is-released",
                      "implies(not is_none(c) and old(some(c).state) == %d, in_no_table(self, some(c)) and "
                      "some(c).g_close_calls == old(some(c).g_close_calls) + 1)" % CLOSED)],
            raises=[],
@@ -172,7 +205,8 @@ R.contract("Node._handle_connections@for:rsock#interrupt", params={"self": "Node
                      "*Peer.last_connect", "*Peer.last_disconnect", "*Peer.disconnect_reason",
                      "dict:self.connections", "dict:self.peer_sockets", "dict:self.socket_peers",
                      "dict:self._half_ready_connections", "dict:self._peer_waiting_answer", "*Event.flag", "*list:Peer"],
-           ghost_modifies=["*PeerConnection.g_close_calls", "*PeerConnection.g_close_reason", "*PeerConnection.g_attn"],
-           props=["C14", "C13", "C18"],
+           ghost_modifies=["*PeerConnection.g_close_calls", "*PeerConnection.g_close_reason", "*PeerConnection.g_attn",
+                           "self.g_pipe_rx"],
+           props=["C14", "C13", "C18", "C19"],
            note="one iteration of `for rsock in ready_r` when rsock is the node's interrupt descriptor: the connection named "
                 "by the bytes read from the pipe is released if it had closed itself")
